@@ -80,12 +80,15 @@ class FigureMarkdown(SphinxDirective):
         finally:
             state._renderer.md_config.enable_extensions = myst_extensions
 
+        # note on error the parsed content is still returned, after the message:
+        # its targets, footnote references, etc. are already registered in the document
         if len(node.children) != 2:
             return [
                 self.figure_error(
                     "content should be one image, "
                     "followed by a single paragraph caption"
-                )
+                ),
+                *node.children,
             ]
 
         image_node, caption_para = node.children
@@ -97,7 +100,8 @@ class FigureMarkdown(SphinxDirective):
                 self.figure_error(
                     "content should be one image (not found), "
                     "followed by single paragraph caption"
-                )
+                ),
+                *node.children,
             ]
 
         if not isinstance(caption_para, nodes.paragraph):
@@ -105,7 +109,8 @@ class FigureMarkdown(SphinxDirective):
                 self.figure_error(
                     "content should be one image, "
                     "followed by single paragraph caption (not found)"
-                )
+                ),
+                *node.children,
             ]
 
         caption_node = nodes.caption(caption_para.rawsource, "", *caption_para.children)
